@@ -31,11 +31,12 @@ from pedal.sandbox.tracer import TRACER_STYLES
 def _has_literal_repr(value):
     """ Whether ``repr(value)`` is source code that evaluates back to the value;
     e.g., ``nan``, ``inf`` and arbitrary objects are not. """
-    if value is None or isinstance(value, (bool, int, str, bytes)):
+    # Exact types only: an instance of a subclass (an IntEnum member, ...) prints as something else
+    if value is None or type(value) in (bool, int, str, bytes):
         return True
-    if isinstance(value, float):
+    if type(value) is float:
         return value == value and value not in (float('inf'), float('-inf'))
-    if isinstance(value, complex):
+    if type(value) is complex:
         return _has_literal_repr(value.real) and _has_literal_repr(value.imag)
     if type(value) in (list, tuple, set, frozenset):
         return all(_has_literal_repr(item) for item in value)
